@@ -28,6 +28,7 @@ type cresp struct {
 	Protocol   string `json:"protocol"`
 	Exts       string `json:"exts"`
 	Cut        bool   `json:"cut"`
+	VerForm    int    `json:"verForm"`
 	statusTok  string
 }
 
@@ -83,7 +84,10 @@ func (r *cresp) render(rng *rand.Rand, key string, reqProtos []string, reqExts [
 	sentExts = []string{}
 	proto := "HTTP/" + r.Proto
 	if r.Proto == "garbage" {
-		proto = []string{"HTTX/1.1", "HTTP/1", "HTTP/1.x"}[rng.Intn(3)]
+		proto = append([]string{"HTTX/1.1"}, garbageVersions...)[r.VerForm%(len(garbageVersions)+1)]
+		if proto == "" {
+			proto = "HTTP/"
+		}
 	}
 	toks := statusTokens[r.Status]
 	r.statusTok = toks[rng.Intn(len(toks))]
@@ -311,9 +315,14 @@ func c10(c *ctx) {
 	base := cresp{Proto: "1.1", Status: "101", Upgrade: "ok", Connection: "ok", Accept: "ok", Protocol: "none", Exts: "none"}
 	for _, p := range []string{"1.1", "1.2", "1.0", "2.0", "garbage"} {
 		for st := range statusTokens {
-			for rep := 0; rep < 6; rep++ {
+			reps := 6
+			if p == "garbage" {
+				reps = len(garbageVersions) + 1
+			}
+			for rep := 0; rep < reps; rep++ {
 				r := base
 				r.Proto, r.Status = p, st
+				r.VerForm = rep
 				respCase(fmt.Sprintf("line/%s/%s/%d", p, st, rep), r)
 			}
 		}
